@@ -390,11 +390,21 @@ def trace_json(trace, lim=400):
 
 
 def md_open_index(trace):
-    """index of the first write-open of _metadata in a trace, or None."""
+    """index of the COMMIT POINT of a trace: the first call that can change _metadata - a write-open of it, a rename onto it (or of
+    it), its removal (Dataset/CrashGen.v touches_md) - or None."""
     for i, c in enumerate(trace):
         if c[0] == "openw" and c[1] == MD:
             return i
+        if c[0] == "rename" and MD in (c[1], c[2]):
+            return i
+        if c[0] == "remove" and c[1] in (MD, ""):
+            return i
     return None
+
+
+def summaryish(p):
+    """_metadata, _common_metadata, or a temporary file they are written through (a root-level name holding '_metadata')"""
+    return isinstance(p, str) and "/" not in p and "_metadata" in p
 
 
 def refs_of(pf):
